@@ -376,6 +376,36 @@ impl FailSafe {
         Ok(fabric)
     }
 
+    /// Check - without changing anything - that [`FailSafe::disarm`] would be accepted from the
+    /// given session, and return the index of the fabric it would commit.
+    ///
+    /// `CommissioningComplete` uses this to persist the fabric and the networks BEFORE it
+    /// disarms: when a store write fails, the command is answered with the error while the
+    /// fail-safe is still armed (the commissioner can retry, or the expiry rolls back).
+    pub fn check_disarm(
+        &self,
+        session_mode: &SessionMode,
+        fabrics: &Fabrics,
+    ) -> Result<NonZeroU8, Error> {
+        if matches!(self.state, State::Idle) {
+            return Err(ErrorCode::FailSafeRequired.into());
+        }
+
+        // Has to be a CASE session
+        let fab_idx = Self::get_case_fab_idx(session_mode)?;
+
+        self.check_state(
+            session_mode,
+            NocFlags::empty(),
+            NocFlags::empty(),
+            NocFlags::empty(),
+        )?;
+
+        fabrics.fabric(fab_idx)?;
+
+        Ok(fab_idx)
+    }
+
     pub fn is_armed(&self) -> bool {
         matches!(self.state, State::Armed(_))
     }
